@@ -224,6 +224,10 @@ def run(tier, seed, only=None):
     kw = {"budget_s": 300 if tier == "quick" else 1500, "max_block_visits": 300, "claim_timeout_ms": 120000}
     for oid, src, pre, passes in equivalence_family(tier):
         items.append(("eq", "step/" + oid, src, pre, passes, kw))
+    # the same commands in every block context (if/elif/else arms, nested loops, helper functions, try, prologue)
+    from .. import skeletons
+    for oid, src in skeletons.ctx_family(tier, table=skeletons.CTX_DEV_STMTS, header=skeletons.DEV_HEADER):
+        items.append(("eq", "placement/" + oid[4:], src, None, 2, kw))
     for c in CLAMP_CASES:
         items.append(("clamp", "clamp/" + c[0]) + tuple(c[1:]))
     if only:
@@ -238,7 +242,8 @@ def run(tier, seed, only=None):
                     "from what the real host class computes (IR of the emitted C++ vs CPython with proxies).  Clamp safety: on "
                     "the firmware alone, with arbitrary out-of-range run-time arguments, no analogWrite/Servo command outside "
                     "the documented limits is feasible.  Two-pass histories from the initial state check the invariants are "
-                    "the reachable ones.",
+                    "the reachable ones.  placement/*: six actuator commands placed in each of 19 block contexts (if/elif/"
+                    "else arms, nested loops, helper functions, try bodies, the prologue), two passes from the initial state.",
         functions_encoded=FUNCTIONS + ["emitter templates for Led*/RGBLed*/Servo*/DCMotor* nodes (as lowered IR)",
                                        "Reduino.Actuators.Led/RGBLed/Servo/DCMotor methods"],
         bounds={"blink times": "<=3", "led fade step": ">=64", "rgb fade steps": "<=4", "flash_pattern length": "<=3",
